@@ -24,7 +24,7 @@ func init() {
 			"backend-address NUL player-ip NUL undashed-uuid NUL json(properties), the BungeeGuard variant marshalling a property list to which {bungeeguard-token, secret} was appended.",
 		Explanation: "Decides: host-first for all client types, Forge markers and address hooks; shape and order of the BungeeCord forwarding string; presence of the BungeeGuard token property. " +
 			"Does not decide: that a real BungeeCord backend parses the JSON (encoding/json is trusted), nor what custom hooks return.",
-		Fixtures: []string{"provenance"},
+		Fixtures: []string{"provenance", "strshape"},
 		Variants: []Variant{
 			{Name: "modern-forge-token-replaces-host", File: pkgProxy + "/server.go",
 				Old: "\t\tvHost = backendHandshakeBaseHost(vHost, phase.ModernForge) + modernforge.ModernToken(forgeTokenSource)", New: "\t\tvHost = modernforge.ModernToken(forgeTokenSource)", Expect: "host-first"},
